@@ -222,6 +222,23 @@ def rule_d(repo, chk, d, t, e):
         chk.ob('d', e.ref, '<name>_success is fired only if requested', q is None, loc(e, n.ast), path=pat.path_lines(q) if q else None,
                discr='success-requested')
     chk.ob('d', e.ref, '<name>_success is fired from exactly one site', len(succ) == 1, loc(e, e.node), discr='success-once')
+    # every path through a catch-all clause records the failure (directly, or by telling _eventDone about the error)
+    for f in (d, t):
+        gf = f.cfg()
+        fev = f.params[1]
+        sites = handler_sites(f)
+        seen_clauses = []
+        for s_ in sites:
+            ca = catch_all_clause(gf, s_)
+            if ca is None or ca in seen_clauses:
+                continue
+            seen_clauses.append(ca)
+            rec_nodes = [n for n in gf.nodes if n.kind == 'stmt' and (
+                any(len(c.args) >= 2 and src(c.args[0]) == fev for _r, c in pat.method_calls(n.ast, '_eventDone')) or
+                (rec_attr is not None and fev in pat.stores_attr(n.ast, rec_attr, True)))]
+            p = Q.escapes(gf, [ca], lambda n: n in rec_nodes, exits=('exit',))
+            chk.ob('d', f.ref, 'a handler failure is recorded for the event on every path (whatever else is still pending)', p is None and bool(rec_nodes),
+                   loc(f, ca.ast), path=pat.path_lines(p, ca) if p else None, discr='failure-always-recorded')
     # call sites in catch-all clauses pass the error they caught
     for f in (d, t):
         gf = f.cfg()
